@@ -282,14 +282,32 @@ def dump_graph(g):
 
 
 def run_history(ck, rng):
+    """an edit history through the library, with queries (traversals) interleaved; afterwards the edited OBJECT must equal the
+    graph built from the survivors, and the primitives must answer on it as on a freshly built graph"""
     from gaftools.gfa import GFA
     g = GFA()
     alive = []
+    links = []
     ops = []
     pool = ["n%d" % i for i in range(rng.randint(2, 6))]
     ndel = 0
+    nquery = 0
     for _ in range(rng.randint(3, 25)):
         r = rng.random()
+        if alive and rng.random() < 0.25:
+            # a query between edits (must not change anything; caches must not go stale)
+            try:
+                q = rng.random()
+                if q < 0.4:
+                    g.all_components()
+                elif q < 0.7:
+                    g.dfs(rng.choice(alive))
+                else:
+                    g[rng.choice(alive)].neighbors()
+                nquery += 1
+            except BaseException as e:  # noqa
+                ck.violation("a graph primitive raised %s on a graph made through the library" % type(e).__name__, {"ops": ops})
+                return
         if r < 0.3 or len(alive) < 1:
             i = rng.choice(pool)
             ops.append({"op": "addNode", "id": i})
@@ -301,6 +319,7 @@ def run_history(ck, rng):
             da, db, ov = rng.choice("+-"), rng.choice("+-"), rng.choice([0, 0, 4])
             ops.append({"op": "addLink", "a": a, "da": da == "+", "b": b, "db": db == "+", "ov": ov, "tags": []})
             g.add_edge(a, da, b, db, ov)
+            links.append((a, da, b, db, ov))
         else:
             i = rng.choice(alive)
             ops.append({"op": "delNode", "id": i})
@@ -310,12 +329,14 @@ def run_history(ck, rng):
                 ck.violation("remove_node raised %s" % type(e).__name__, {"ops": ops})
                 return
             alive.remove(i)
+            links = [l for l in links if l[0] != i and l[2] != i]
             ndel += 1
     impl = dump_graph(g)
     r = ck.driver([{"op": "graph.history", "ops": ops}])[0]
     ck.case(ops, ndel >= 1 and any(o["op"] != "delNode" for o in ops[[k for k, o in enumerate(ops) if o["op"] == "delNode"][0]:]) if ndel else False,
             sample={"ops": ops[:8]} if ndel else None)
     ck.count("history-dels:%d" % min(ndel, 3))
+    ck.count("history-queries:%d" % min(nquery, 3))
     replay = {"ops": ops, "impl": impl, "spec": r["spec"]}
     # symmetric and no dangling, on the implementation's own graph
     ids = {n["id"] for n in impl}
@@ -334,6 +355,26 @@ def run_history(ck, rng):
         return
     if impl != r["model"]:
         ck.disagreement("history result differs from the model", dict(replay, model=r["model"]))
+    # the primitives on the edited object = the primitives on the graph built from the survivors
+    if alive:
+        text = "".join("S\t%s\t*\n" % i for i in alive) + "".join("L\t%s\t%s\t%s\t%s\t%dM\n" % l for l in links)
+        tok = tokenize_gfa(text)
+        starts = [rng.choice(alive) for _ in range(min(3, len(alive)))]
+        res = {}
+        try:
+            comps = g.all_components()
+            res["components"] = [sorted(c) for c in comps]
+            res["dfs"] = [g.dfs(s) for s in starts]
+            flags_reset = all(not n.visited for n in g.nodes.values())
+            if len(comps) == 1 and len(alive) >= 2:
+                c, a = g.biccs()
+                res["biccs"] = {"comps": [sorted(x) for x in c], "aps": sorted(a)}
+            else:
+                res["biccs"] = None
+        except BaseException as e:  # noqa
+            ck.violation("a graph primitive raised %s on a graph made through the library" % type(e).__name__, replay)
+            return
+        PENDING_ALGOS.append(({"op": "graph.algos", "gfa": tok, "starts": starts, "impl": res}, "history: " + text, alive[:], starts, res, flags_reset, "after-history"))
 
 
 def c15(ck, tmp):
@@ -370,6 +411,7 @@ def c15(ck, tmp):
     ck.extra["exhaustive_scopes"] = ["all simple graphs on <= %d labelled nodes" % top, "all multigraphs on <= 3 nodes with <= 2 links per slot (self-links included), <= 4 links"]
     for it in range(250 if quick else 8000):
         run_history(ck, rng)
+    flush_algos(ck)
     if not quick:
         big_graph(ck)
 
